@@ -1,0 +1,137 @@
+//! Verification seams, compiled only with `--cfg okane_verif`.
+//! See `okane_core::verif`; this adds the serde support the import configuration needs.
+
+pub use okane_core::verif::chrono;
+
+/// Shadow of the `std` crate.
+pub mod std {
+    pub use okane_core::verif::std::*;
+
+    pub mod collections {
+        pub use ::std::collections::*;
+
+        pub use super::super::map::HashMap;
+    }
+}
+
+pub mod map {
+    use ::std::collections::hash_map;
+    use ::std::fmt;
+    use ::std::hash::Hash;
+    use ::std::ops::{Deref, DerefMut};
+
+    use okane_core::verif::SimState;
+
+    /// `HashMap` whose iteration order is decided by the simulator.
+    pub struct HashMap<K, V>(::std::collections::HashMap<K, V, SimState>);
+
+    impl<K, V> HashMap<K, V> {
+        pub fn new() -> Self {
+            HashMap(::std::collections::HashMap::with_hasher(SimState::default()))
+        }
+
+        pub fn with_capacity(n: usize) -> Self {
+            HashMap(::std::collections::HashMap::with_capacity_and_hasher(
+                n,
+                SimState::default(),
+            ))
+        }
+    }
+
+    impl<K, V> Default for HashMap<K, V> {
+        fn default() -> Self {
+            Self::new()
+        }
+    }
+
+    impl<K, V> Deref for HashMap<K, V> {
+        type Target = ::std::collections::HashMap<K, V, SimState>;
+
+        fn deref(&self) -> &Self::Target {
+            &self.0
+        }
+    }
+
+    impl<K, V> DerefMut for HashMap<K, V> {
+        fn deref_mut(&mut self) -> &mut Self::Target {
+            &mut self.0
+        }
+    }
+
+    impl<K: Clone, V: Clone> Clone for HashMap<K, V> {
+        fn clone(&self) -> Self {
+            HashMap(self.0.clone())
+        }
+    }
+
+    impl<K: fmt::Debug, V: fmt::Debug> fmt::Debug for HashMap<K, V> {
+        fn fmt(&self, f: &mut fmt::Formatter<'_>) -> fmt::Result {
+            self.0.fmt(f)
+        }
+    }
+
+    impl<K: Eq + Hash, V: PartialEq> PartialEq for HashMap<K, V> {
+        fn eq(&self, other: &Self) -> bool {
+            self.0 == other.0
+        }
+    }
+
+    impl<K: Eq + Hash, V: Eq> Eq for HashMap<K, V> {}
+
+    impl<K: Eq + Hash, V> FromIterator<(K, V)> for HashMap<K, V> {
+        fn from_iter<T: IntoIterator<Item = (K, V)>>(iter: T) -> Self {
+            let mut m = Self::new();
+            m.0.extend(iter);
+            m
+        }
+    }
+
+    impl<K: Eq + Hash, V> Extend<(K, V)> for HashMap<K, V> {
+        fn extend<T: IntoIterator<Item = (K, V)>>(&mut self, iter: T) {
+            self.0.extend(iter)
+        }
+    }
+
+    impl<K, V> IntoIterator for HashMap<K, V> {
+        type Item = (K, V);
+        type IntoIter = hash_map::IntoIter<K, V>;
+
+        fn into_iter(self) -> Self::IntoIter {
+            self.0.into_iter()
+        }
+    }
+
+    impl<'a, K, V> IntoIterator for &'a HashMap<K, V> {
+        type Item = (&'a K, &'a V);
+        type IntoIter = hash_map::Iter<'a, K, V>;
+
+        fn into_iter(self) -> Self::IntoIter {
+            self.0.iter()
+        }
+    }
+
+    impl<'a, K, V> IntoIterator for &'a mut HashMap<K, V> {
+        type Item = (&'a K, &'a mut V);
+        type IntoIter = hash_map::IterMut<'a, K, V>;
+
+        fn into_iter(self) -> Self::IntoIter {
+            self.0.iter_mut()
+        }
+    }
+
+    impl<K: serde::Serialize, V: serde::Serialize> serde::Serialize for HashMap<K, V> {
+        fn serialize<S: serde::Serializer>(&self, serializer: S) -> Result<S::Ok, S::Error> {
+            self.0.serialize(serializer)
+        }
+    }
+
+    impl<'de, K, V> serde::Deserialize<'de> for HashMap<K, V>
+    where
+        K: serde::Deserialize<'de> + Eq + Hash,
+        V: serde::Deserialize<'de>,
+    {
+        fn deserialize<D: serde::Deserializer<'de>>(deserializer: D) -> Result<Self, D::Error> {
+            ::std::collections::HashMap::<K, V, SimState>::deserialize(deserializer).map(HashMap)
+        }
+    }
+}
